@@ -121,8 +121,8 @@ def execute(case) -> Outcome:
     rtol, atol = tol_for(func, arr.dtype)
     if case.get("dtype") == "<f4" and gen.func_family(func) == "var":
         rtol, atol = 1e-5, 1e-5
-    elif case.get("dtype") == "<f4" and func in ("mean", "nanmean"):
-        rtol = 1e-6
+    elif case.get("dtype") == "<f4":
+        rtol, atol = 1e-6, 1e-9  # a requested float32 result is rounded to float32
 
     # non-triviality
     labs = [x for x in case["by"]["v"] if x not in ("nan", "nat")]
